@@ -1,6 +1,6 @@
 #!/bin/bash
 # usage: tools/r2confirm.sh <Cxx>  — confirm the round-2 changes of one property in its own worktree
-P=$1; D=/tmp/mut/$P.r2
+P=$1; D=/tmp/mut/$P.${ROUND:-r2}
 for K in 1 2 3; do
   [ -f $D/m$K.diff ] || continue
   echo "#### $P r2 m$K $(/verif/tools/confirm_mutant.sh $D $K /tmp/mut/$P 2>&1 | tail -2 | tr '\n' ' ')"
